@@ -241,10 +241,16 @@ m = {
         {"name": "mcsa", "path": "mcsa/", "serves_properties": sorted(CHECKS),
          "kind_free_text": "rustc_private driver: facts + monomorphic MIR exporter run under cargo +nightly check per configuration"},
         {"name": "mcai", "path": "mcai/", "serves_properties": sorted(CHECKS),
-         "kind_free_text": "python3 static analyses over the exported program: call graph, dominance, dataflow, abstract interpretation"},
+         "kind_free_text": "python3 static analyses over the exported program: call graph, dominance, derived-from dataflow (prog.py, derive.py, guards.py, rules/), abstract interpretation of monomorphic MIR with Houdini loop invariants (lin.py, loops.py, interp.py, models.py), ghost scan/candidate coverage (e3.py), byte-equality coverage (eqg.py), the substring-layer relation and specification tables with assume-guarantee between public functions (mm.py, specs.py, eqspec.py), compile-fail witnesses (witness/)"},
     ],
     "checks": [],
-    "notes": "All checks are static analyses of /repo's current source (no memchr code is executed). See DESIGN.md.",
+    "notes": "All checks are static analyses of /repo's current source (no memchr code is executed, concretely or symbolically with a solver; "
+             "the abstract interpreter decides entailments with its own Fourier-Motzkin procedure). Every property has a check; "
+             "C03, C04, C08, C10, C12, C13 are claimed at level 'other': they decide necessary conditions and state in their level text what "
+             "static analysis does not reach here (completeness of Two-Way = critical factorisation theorem, of the Rabin-Karp rolling hash, "
+             "of the Shift-Or automaton; step counts; termination). /repo carries one unguarded 'fix:' commit (3f371df, u32 overflow in "
+             "PrefilterState::is_effective, found by C14) recorded in known_findings.json; there are no hooks in /repo. "
+             "DESIGN.md section 9 describes what was built; seeded/MATRIX.md the changes the checks were tried against.",
     "not_applicable": [],
 }
 for pid in ids:
